@@ -33,6 +33,10 @@ ASSUMPTIONS = [
 
 
 MUTANTS = [
+    ("background subtracted in place from the caller's image",
+     "AegeanTools/source_finder.py",
+     "    snr = abs(im - bkg) / rms\n",
+     "    im -= bkg\n    snr = abs(im - 0 * bkg) / rms\n", "C02-R10"),
     ("background subtracted only when it has positive pixels",
      "AegeanTools/source_finder.py",
      "        img -= self.global_data.bkgimg\n",
@@ -279,6 +283,31 @@ def run(ctx):
                   node=setm[0] if setm else m.loop)
     r8_loop(ctx, prog, m)
     r9_background(ctx, prog)
+    # ---------------------------------------------------------------- R10
+    ctx.rule("C02-R10", "find_islands is a function of its arguments: it "
+             "does not write into the image / background / noise arrays it "
+             "is given (in-place arithmetic, subscript stores) -- a second "
+             "call on the same arrays (e.g. with a higher seed threshold) "
+             "must see the same data")
+    arrs = [p_ for p_ in fi.params if p_ in ("im", "bkg", "rms")]
+    if len(arrs) != 3:
+        raise AnalysisError("C02-R10: parameters im / bkg / rms")
+    wr = []
+    for st in walk_no_nested(fi.node):
+        tg = st.targets if isinstance(st, ast.Assign) else (
+            [st.target] if isinstance(st, ast.AugAssign) else [])
+        for t in tg:
+            b = t
+            while isinstance(b, ast.Subscript):
+                b = b.value
+            if isinstance(b, ast.Name) and b.id in arrs and (
+                    isinstance(st, ast.AugAssign) or b is not t):
+                wr.append(st)
+    ctx.check("C02-R10", fi, "no write into the argument arrays", not wr,
+              "`%s` modifies the caller's array: the islands of a later call "
+              "on the same image (another seed / flood threshold) are "
+              "computed from altered data" % (norm(wr[0], 50) if wr else ""),
+              node=wr[0] if wr else fi.node)
     # ---------------------------------------------------------------- R3
     ctx.rule("C02-R3", "the seed test and the region pixel list are "
              "restricted to the island's own label, not the whole bounding "
